@@ -152,6 +152,61 @@ pub fn case_scan(id: &str, r: &mut Rng) -> String {
     format!("C20 {} kind=scan low={} high={} spoff={} stack={} result={}", id, low, high, sp_off, hex(&stack), result)
 }
 
+/// live part of C06 / C20: many threads whose stack pointers sit at chosen in-page offsets, size
+/// limits around the estimate threshold, principal mapping referenced by some stacks only
+pub fn generate_live(prop: &str, seed: u64, tier: &str, out: &mut dyn std::io::Write) {
+    use crate::live::*;
+    use crate::recdest::RecDest;
+    // probe: in-page offset of a blocked thread's stack pointer without adjustment
+    let k = match Target::spawn(&["-t".to_string(), "1".to_string()]) {
+        Ok(t) => t.read_u64(t.threads[1].regs_addr + 80) % 4096,
+        Err(_) => return,
+    };
+    let offsets: &[u64] = if tier == "thorough" { &[0, 8, 16, 1024, 2040, 2048, 2056, 3000, 4080, 4088] } else { &[0, 8, 2040, 2048, 2056, 4088] };
+    let mut idx = 0u64;
+    for &x in offsets {
+        for variant in 0..(if tier == "thorough" { 4 } else { 2 }) {
+            let mut r = Rng::for_case(seed, 606, idx);
+            let adj = (k + 4096 - x) % 4096;
+            let nblock = *r.pick(&[22usize, 24, 30]);
+            let t = match Target::spawn(&["-t".to_string(), nblock.to_string(), "-o".to_string(), adj.to_string()]) {
+                Ok(t) => t,
+                Err(_) => continue,
+            };
+            let mut cfg = DumpCfg::default();
+            let bt = &t.threads[r.below(t.threads.len() as u64) as usize];
+            cfg.blamed = bt.tid;
+            if prop == "C06" {
+                cfg.limit = if variant % 2 == 0 { Some(*r.pick(&[1u64, 200_000])) } else { Some(50_000_000) };
+                if r.chance(1, 2) {
+                    // crash context on a thread at a late list position: must never be shortened
+                    let late = &t.threads[t.threads.len() - 1 - r.below(3) as usize];
+                    let mut c = CrashSpec { tid: late.tid, signo: 11, code: 1, addr: 0, fp_seed: r.next(), ..Default::default() };
+                    c.gregs[libc::REG_RIP as usize] = t.read_u64(late.regs_addr + 88) as i64;
+                    c.gregs[libc::REG_RSP as usize] = t.read_u64(late.regs_addr + 80) as i64;
+                    cfg.blamed = late.tid;
+                    cfg.crash = Some(c);
+                }
+            } else {
+                // C20: principal mapping = the code the threads block in (every IP is inside) or the
+                // shared page (only referenced through pointers that some threads hold on their stack)
+                let rip = t.read_u64(bt.regs_addr + 88);
+                cfg.principal = Some(if variant % 2 == 0 { rip } else { t.desc["shared"].as_u64().unwrap() });
+                if r.chance(1, 3) {
+                    let mut c = CrashSpec { tid: bt.tid, signo: 11, code: 1, addr: 0, fp_seed: r.next(), ..Default::default() };
+                    c.gregs[libc::REG_RIP as usize] = rip as i64;
+                    c.gregs[libc::REG_RSP as usize] = t.read_u64(bt.regs_addr + 80) as i64;
+                    cfg.crash = Some(c);
+                }
+            }
+            let mut dest = RecDest::new(vec![], 0);
+            let o = dump_case(prop, &format!("l{}-{}", seed, idx), &t, &cfg, &mut dest, &format!("spoff={}", x));
+            writeln!(out, "{}", o.line).unwrap();
+            idx += 1;
+        }
+    }
+}
+
 pub fn generate(prop: &str, seed: u64, tier: &str, out: &mut dyn std::io::Write) {
     let n = if tier == "thorough" { 200000 } else { 20000 };
     for i in 0..n {
@@ -161,6 +216,9 @@ pub fn generate(prop: &str, seed: u64, tier: &str, out: &mut dyn std::io::Write)
             _ => case_scan(&format!("p{}-{}", seed, i), &mut Rng::for_case(seed, 20, i)),
         };
         writeln!(out, "{}", line).unwrap();
+    }
+    if prop == "C06" || prop == "C20" {
+        generate_live(prop, seed, tier, out);
     }
 }
 
